@@ -136,11 +136,17 @@ where
             self.position += self.block.size();
 
             if self.block.data().len() > 0 {
-                break;
+                return Ok(self.block.data().len());
             }
         }
 
-        Ok(self.block.data().len())
+        // EOF: do not keep serving the previously loaded block.
+        self.block.set_position(self.position);
+        self.block.set_size(0);
+        self.block.data_mut().set_position(0);
+        self.block.data_mut().resize(0);
+
+        Ok(0)
     }
 
     fn read_block(&mut self) -> io::Result<usize> {
